@@ -68,7 +68,7 @@ func witnessDesign() *dg.Design {
 		Result: ok,
 		HTTP:   &dg.HTTPMap{Routes: []dg.Route{{Verb: "POST", Path: "/b"}}}})
 
-	// explicit inline body over primitive attributes (finding inline-body-sends-whole-payload)
+	// explicit inline body over primitive attributes (repaired by d880aed: part of the fixed corpus)
 	add(&dg.Method{Name: "inl",
 		Payload: obj(dg.Req("tok", str()), dg.F("note", str()), dg.F("hq", str()), dg.F("qq", intT())),
 		Result:  ok,
@@ -186,6 +186,9 @@ func fixedCases() []witnessCase {
 	p("parr", vO("pa", vA(vS("a"), vS("b"))))
 	p("parr", vO("pa", vA(vS("é"), vS("x+y"), vS("%41"), vS("a/b"))))
 	p("pint", vO("pia", vA(vI(1), vI(-2), vI(3))))
+	p("inl", vO("tok", vS("t1"), "note", vS("n1"), "hq", vS("h1"), "qq", vI(4)))
+	p("inl", vO("tok", vS("only")))
+	p("inl", vO("tok", vS("a b%41/\"q\""), "note", vS("é→"), "qq", vI(-9)))
 	p("bdy", baseB())
 	p("bdy", vO("ra", vA(vI(0))))
 	p("bdy", with(with(baseB(), "note", vS("")), "oa", vA(vS(""), vS(" lead"), vS("\"quoted\"\\"))))
@@ -236,7 +239,6 @@ func witnessCases(prop string) []witnessCase {
 		p("qry", vO("rs", vS("x1"), "db", vB(false)), "unset-defaulted-param-sent-as-zero")
 		p("qry", vO("rs", vS("x1"), "di", vI(3)), "unset-defaulted-param-sent-as-zero")
 		p("qry", with(baseQ(), "m", vM(vS("a]b"), vS("v"))), "query-map-key-bracket-truncated")
-		p("inl", vO("tok", vS("t1"), "note", vS("n1"), "hq", vS("h1"), "qq", vI(4)), "inline-body-sends-whole-payload")
 		p("parr", vO("pa", vA()), "empty-path-value-not-routed")
 		p("parr", vO("pa", vA(vS(""))), "empty-path-value-not-routed")
 	}
